@@ -53,6 +53,9 @@ func c18hookA(c c18case) string {
 		s += "- name: kb2\n  kind: ConfigMap\n  queue: qa\n  namespace: {nameSelector: {matchNames: [n1]}}\n- name: kb3\n  kind: ConfigMap\n  queue: qa\n  namespace: {nameSelector: {matchNames: [n1]}}\n"
 	case "twoq":
 		s += "- name: kc\n  kind: ConfigMap\n  queue: qa2\n  namespace: {nameSelector: {matchNames: [n2]}}\n"
+	case "webhook":
+		// the throttled hook also serves an admission webhook: its queued executions are throttled all the same
+		s += "kubernetesValidating:\n- name: val.example.com\n  rules:\n  - operations: [\"*\"]\n    apiGroups: [\"\"]\n    apiVersions: [\"v1\"]\n    resources: [\"configmaps\"]\n"
 	}
 	return s
 }
@@ -110,6 +113,11 @@ func c18body(c c18case, obs *c18obs) func(x *vrt.Exec) {
 		vrt.Atomic(func() { err = fx.assemble() })
 		if err != nil {
 			panic(err)
+		}
+		if c.Shape == "webhook" {
+			if err := fx.withWebhooks(); err != nil {
+				panic(err)
+			}
 		}
 		fx.start()
 		ok := vrt.WaitFor("startup", 30*time.Minute, func() bool {
@@ -291,10 +299,17 @@ func TestVerifC18(t *testing.T) {
 		for _, gaps := range [][]int{{0}, {0, 0}, {1, 0}, {4}} {
 			cases = append(cases, c18case{cf.I, cf.B, gaps, 0, 0, "multi"}, c18case{cf.I, cf.B, gaps, 0, 0, "twoq"})
 		}
+		for _, gaps := range [][]int{{0, 0}, {1, 1, 1}} {
+			cases = append(cases, c18case{cf.I, cf.B, gaps, 0, 0, "webhook"})
+		}
 		// a backlog in a shared queue: several changes at once, the two hooks' tasks alternate
 		for _, gaps := range [][]int{{0, 0, 0, 0}, {0, 0, 0, 0, 0, 0}, {1, 0, 0, 0}} {
 			cases = append(cases, c18case{cf.I, cf.B, gaps, 0, 0, "shared"})
 		}
+	}
+	// an interval longer than the operator's shutdown timeout (10 s): the wait is simply longer
+	for _, gaps := range [][]int{{0}, {0, 0}, {1, 0}, {0, 1, 1}, {1, 1, 1, 1}} {
+		cases = append(cases, c18case{30 * time.Second, 1, gaps, 0, 0, ""}, c18case{time.Minute, 2, gaps, 0, 0, ""})
 	}
 	// failing runs: retries are executions as well and must respect the limit (interval longer than the back-off)
 	for _, fails := range []int{1, 2, 3} {
